@@ -329,9 +329,34 @@ def r6_stakes_after_success(ctx):
     r = ctx.rule("R6", "apply_tx_batch_impl adds every new stake to the next state, only after create_next_state(..)? succeeded; add_stake inserts by txhash")
     body = ctx.body("melstf::state::applytx::apply_tx_batch_impl", r)
     adds = q.call_exprs(body, "StakeSet::add_stake")
-    r.check(len(adds) == 1, "add/one", "one add_stake site", "%d add_stake sites" % len(adds))
     cns = q.call_exprs(body, "create_next_state")
     r.anchor(cns, "call of create_next_state")
+    if not adds:
+        # `new_stakes.into_iter().for_each(|(k, v)| next_state.stakes.add_stake(k, v))`: the per-stake step is a closure
+        SRC0 = "try(applytx::load_stake_info($1, $2))"
+        fe = [(bi, e) for bi, e in q.call_exprs(body, "for_each") if len(e[2]) == 2 and sig(e[2][0]) == SRC0 and e[2][1][0] == "closure"]
+        if len(fe) == 1:
+            bi, e = fe[0]
+            c = ctx.prog.body(e[2][1][1])
+            caps = q.closure_captures(body, e[2][1][1])
+            cadds = q.call_exprs(c, "StakeSet::add_stake")
+            r.check(len(cadds) == 1, "add/one", "one add_stake site (in the per-stake closure)", "%d add_stake sites in the closure" % len(cadds))
+            for cb, ce in cadds:
+                got = [sig(q.novers(q.subst(a_, {}, caps))) for a_ in ce[2]]
+                r.check(got == ["next_state.stakes", "$2.0", "$2.1"], "add/args", "add_stake(next_state.stakes, k, v) for every new stake", "add_stake(%s)" % ", ".join(got), c.where(cb))
+                wo = c.reachable(0, removed=[cb])
+                r.check(not any(x in wo for x in c.return_blocks()), "add/every-stake", "every new stake is added", "a new stake can be skipped", c.where(cb))
+            f = force(body, {cns[0][1]: V(1)})
+            r.check(bi not in f.reach, "add/after-success", "unreachable when create_next_state fails", "stakes are added although create_next_state failed", body.where(bi))
+            r.check(body.dominates(cns[0][0], bi), "add/order", "create_next_state dominates the stake loop", "the stakes are added before create_next_state", body.where(bi))
+            oks_ = [b_ for b_, e_ in q.result_blocks(body)["Ok"]]
+            r.check(all(body.dominates(bi, o_) for o_ in oks_), "add/all-before-ok", "Ok only after the for_each", "Ok reachable without the stake for_each", body.where(bi))
+            r.ok("add/loop", "for_each over the whole new-stake map")
+            ad = ctx.body("tip911_stakeset::StakeSet::add_stake", r)
+            ins = q.call_exprs(ad, "HashMap::insert")
+            r.check(len(ins) == 1 and sig(ins[0][1]) == "HashMap::insert($1.stakes, $2, $3)", "add_stake/def", "add_stake = stakes.insert(txhash, doc)", "add_stake does %s" % [sig(i[1]) for i in ins])
+            return
+    r.check(len(adds) == 1, "add/one", "one add_stake site", "%d add_stake sites" % len(adds))
     for bi, e in adds:
         SRC = "try(applytx::load_stake_info($1, $2))"
         got = [sig(q.novers(a)) for a in e[2]]
